@@ -32,7 +32,7 @@ def run(prop, tier, seed, t0, H, second=None, second_engine=None):
             # the PROPOSAL flow (Model.Proposal): leaves by members / admins / the last admin, two leavers in one epoch, leaves that
             # race the round's commits or arrive while the receiver's own commit is pending, the leaver's echo and re-deliveries,
             # admins merging / clearing the automatic commit, crafted Remove(other) / Add / GroupContextExtensions / PSK / Update
-            # proposals from non-admins (see worldeng.gen_race_history, flavours L and A)
+            # proposals from non-admins, commits that remove AND add (see worldeng.gen_race_history, flavours L, A and LA)
             worlds += W.run_histories(seed + 13, 36 if tier == "quick" else 450, tier,
                                       gen=lambda w, rng, tr: W.gen_race_history(w, rng, tr, p_leave=0.65))
             rule += ("; for C05 / C06 additionally histories with the proposal flow on: leave_group by members, admins and the last admin (one or two per round, "
